@@ -3,6 +3,7 @@ package detectsim
 import (
 	"bytes"
 	"sync"
+	"time"
 
 	"github.com/Trisia/randomness"
 	"github.com/Trisia/randomness/simrt"
@@ -41,6 +42,7 @@ type RunState struct {
 	memo     map[string]*randomness.TestResult
 	prelude  bool
 	companions []string
+	ncalls   int
 }
 
 var active struct {
@@ -91,6 +93,17 @@ func wrapRunner(item int) randomness.TestFunc {
 			simrt.Yield("runner." + itoa(item))
 		} else {
 			stir(uint64(len(data)*31 + item))
+		}
+		if sp := st.cfg.Runners; st.sim && sp.SlowEvery > 0 {
+			st.mu.Lock()
+			st.ncalls++
+			slow := st.ncalls%sp.SlowEvery == 0
+			st.mu.Unlock()
+			if slow {
+				// a test that takes long (a loaded machine, a big sample)
+				time.Sleep(time.Duration(sp.SlowSec) * time.Second)
+				simrt.Yield("runner.slow")
+			}
 		}
 		k, diff := st.identify(data)
 		var res *randomness.TestResult
